@@ -220,6 +220,9 @@ Definition c16_step (rf0 : nat) (prev : obs) (e : event) (cur : obs) : bool :=
         (* every replica in service (RW or rebuilding) that did not fail the call has the new size *)
         forallb (fun a => if flt fs a KResize then true else Z.eqb (rsize_of cur a) sz) (in_service (o_replicas prev))
         && (if is_ack cur then Z.eqb (o_size cur) sz else Z.eqb (o_size cur) (o_size prev))
+        (* the failure is booked against the replica that failed: it leaves the service, the others stay *)
+        && forallb (fun a => Bool.eqb (mem a (in_service (o_replicas cur))) (negb (flt fs a KResize)))
+                   (in_service (o_replicas prev))
   | _ => true
   end.
 
